@@ -113,7 +113,7 @@ SPEC = dict(
           "values, the three ways a sink fails (raise, runtime error, top-level return), addEvent; also after life-cycle histories. "
           "B: RootMonitor driven directly: every sequence of exactly 6 (quick) / 7 (thorough) steps over 3 priorities (heap of at most 3 entries: "
           "exercises the counting and the Skip guard, cannot see heap-order defects); random sequences of up to 90 calls over up to 12 priorities "
-          "incl. negative and rejected calls; heap-stress sequences (8..30 distinct priorities active at once, then 20..80 random finishes and "
+          "incl. negative and rejected calls; heap-stress sequences (8..30 distinct priorities active at once, then 40..160 random finishes and "
           "activations). HighestPriority() after every call. "
           "Q: sortutil.PriorityQueue driven directly (Push with 2..40 distinct priorities incl. negative, Pop, Peek, Clear, up to 450 calls): "
           "returned values AND the slice layout (PriorityQueue.String()) after every call against the heap-slice model HPQ. "
